@@ -152,6 +152,7 @@ def run(ctx, col, tier):
     col.guard(selection, ctx, col)
     col.guard(node_subtree_start, ctx, col)
     col.guard(iterables_once, ctx, col)
+    col.guard(subtree_order, ctx, col)
 
     for q, what in ((f"{TU}.get_subtree", "get_subtree"), (f"{TU}.to_subtree", "to_subtree"),
                     (f"{TU}.cut_tree", "cut_tree")):
@@ -579,3 +580,28 @@ def iterables_once(ctx, col):
                         f"so the ids it should mark are never marked and the operation returns the whole tree", stmt=f"iter:{p_}", definite=True)
     if not n:
         col.ok("R-ITER", "iter-scan", "", "no Iterable-annotated parameter in the public pruning functions", "", stmt="iter-scan")
+
+
+
+def subtree_order(ctx, col):
+    """The extracted sub-tree's rows are the visited nodes in traversal order, start node first (row 0 becomes the root).  A list of the members in ascending id order
+    (a mask read back with flatnonzero / where / nonzero, a sort, a set) puts a descendant with a smaller id in front of the start node."""
+    col.rule("R-SUBORDER", "sub-tree extraction keeps the traversal order of the visited nodes (start node first, so that row 0 is the root): the member list is not re-ordered by id "
+             "(flatnonzero / where / sort / unique)", floor=1)
+    d = ctx.repo.get_def("swcgeom.core.tree_utils_impl.get_subtree_impl")
+    bad = None
+    binds = {}
+    for n in own_nodes(d):
+        if isinstance(n, ast.Assign) and len(n.targets) == 1 and isinstance(n.targets[0], ast.Name):
+            binds.setdefault(n.targets[0].id, []).append(n)
+    for n in binds.get("sub_ids", []):
+        for c in ast.walk(n.value):
+            if isinstance(c, ast.Call) and (dotted(c.func) or "").rsplit(".", 1)[-1] in ("flatnonzero", "nonzero", "where", "argwhere", "sort", "unique", "sorted", "argsort"):
+                bad = (n, c)
+    what = "the sub-tree's rows are the visited nodes in traversal order (start node first)"
+    if bad is not None:
+        col.bad("R-SUBORDER", d.qualname, d.loc(bad[0]), what,
+                f"`{norm_src(bad[0])[:80]}` lists the members in ascending id order (`{(dotted(bad[1].func) or '').rsplit('.', 1)[-1]}`): in a tree that is not stored parents-first a descendant "
+                f"with a smaller id comes before the start node, so row 0 of the result is not its root (node 0 has a parent, the root sits elsewhere)", stmt="subtree-order", definite=True)
+    else:
+        col.ok("R-SUBORDER", d.qualname, d.loc(), what, "no re-ordering of the visited ids", stmt="subtree-order")
